@@ -161,14 +161,15 @@ Proof.
 Qed.
 
 Lemma all2_refl (cl : V -> V -> bool) (l : list V) :
-  (forall x, cl x x = true) -> all2 cl l l = true.
+  (forall x, In x l -> cl x x = true) -> all2 cl l l = true.
 Proof.
   intros H. unfold all2. induction l as [|x l IH]; cbn; [reflexivity|].
-  rewrite H, IH. reflexivity.
+  rewrite (H x (or_introl eq_refl)), IH; [reflexivity|].
+  intros z Hz. apply H. right. exact Hz.
 Qed.
 
 Lemma rows_close_mesh_e (cl : V -> V -> bool) (e n : list V) :
-  (forall x, cl x x = true) -> rows_close cl (mesh_e e n) = true.
+  (forall x, In x e -> cl x x = true) -> rows_close cl (mesh_e e n) = true.
 Proof.
   intros H. unfold rows_close, mesh_e. destruct n as [|y n]; [reflexivity|].
   cbn [map]. apply forallb_forall. intros r Hr.
@@ -178,14 +179,14 @@ Proof.
 Qed.
 
 Lemma cols_close_mesh_n (cl : V -> V -> bool) (e n : list V) :
-  (forall x, cl x x = true) -> cols_close cl (mesh_n e n) = true.
+  (forall y, In y n -> cl y y = true) -> cols_close cl (mesh_n e n) = true.
 Proof.
   intros H. unfold cols_close, mesh_n. apply forallb_forall. intros r Hr.
-  apply in_map_iff in Hr as (y & <- & _). destruct e as [|x e]; [reflexivity|].
+  apply in_map_iff in Hr as (y & <- & Hy). destruct e as [|x e]; [reflexivity|].
   cbn [map]. apply forallb_forall. intros z Hz.
   assert (z = y) as ->.
   { destruct Hz as [<-|Hz]; [reflexivity|]. apply in_map_iff in Hz as (? & <- & _). reflexivity. }
-  apply H.
+  apply H. exact Hy.
 Qed.
 
 Lemma length_first_col ne (N : arr2) : 0 < ne ->
@@ -288,9 +289,10 @@ Proof.
   eapply length_first_col; eassumption.
 Qed.
 
-(** meshgrid_to_1d undoes meshgrid_from_1d on non-empty vectors *)
+(** meshgrid_to_1d undoes meshgrid_from_1d on non-empty vectors whose entries
+    are close to themselves (i.e. are not NaN) *)
 Theorem meshgrid_to_from_1d (e n : list V) extras :
-  (forall x, close x x = true) -> e <> [] -> n <> [] ->
+  (forall x, In x e \/ In x n -> close x x = true) -> e <> [] -> n <> [] ->
   forallb (rect (length n) (length e)) extras = true ->
   meshgrid_from_1d e n extras = Some (mesh_e e n, mesh_n e n) /\
   meshgrid_to_1d close (mesh_e e n) (mesh_n e n) extras = Some (e, n).
@@ -299,7 +301,9 @@ Proof.
   - unfold meshgrid_from_1d. rewrite Hx. reflexivity.
   - unfold meshgrid_to_1d. rewrite first_row_mesh_e by exact Hn.
     replace (length (mesh_e e n)) with (length n) by (unfold mesh_e; rewrite map_length; reflexivity).
-    rewrite rect_mesh_e, rect_mesh_n, Hx, rows_close_mesh_e, cols_close_mesh_n by exact Hrefl.
+    rewrite rect_mesh_e, rect_mesh_n, Hx.
+    rewrite rows_close_mesh_e by (intros x Hin; apply Hrefl; left; exact Hin).
+    rewrite cols_close_mesh_n by (intros x Hin; apply Hrefl; right; exact Hin).
     rewrite first_col_mesh_n by exact He.
     destruct e; [congruence|]. destruct n; [congruence|]. reflexivity.
 Qed.
@@ -372,8 +376,7 @@ End WithClose.
 
 (** both directions in one statement *)
 Theorem meshgrid_inverse (close : V -> V -> bool) (extras : list arr2) :
-  (forall x, close x x = true) ->
-  (forall e n : list V, e <> [] -> n <> [] ->
+  (forall e n : list V, (forall x, In x e \/ In x n -> close x x = true) -> e <> [] -> n <> [] ->
      forallb (rect (length n) (length e)) extras = true ->
      exists E N, meshgrid_from_1d e n extras = Some (E, N) /\
                  meshgrid_to_1d close E N extras = Some (e, n)) /\
@@ -381,8 +384,8 @@ Theorem meshgrid_inverse (close : V -> V -> bool) (extras : list arr2) :
      rows_equal_first E -> cols_equal_first N ->
      meshgrid_from_1d e n extras = Some (E, N)).
 Proof.
-  intros Hrefl. split.
-  - intros e n He Hn Hx. exists (mesh_e e n), (mesh_n e n).
+  split.
+  - intros e n Hrefl He Hn Hx. exists (mesh_e e n), (mesh_n e n).
     apply meshgrid_to_from_1d; assumption.
   - intros E N e n. apply meshgrid_from_to_1d.
 Qed.
@@ -943,7 +946,7 @@ Proof.
     - cbn [hd]. rewrite forallb_forall. split; intros H r Hr.
       + symmetry. apply all2_eq; [|apply H; exact Hr].
         rewrite (RE r0 (or_introl eq_refl)), (RE r Hr). reflexivity.
-      + rewrite (H r Hr). apply all2_refl. exact veqb_refl. }
+      + rewrite (H r Hr). apply all2_refl. intros z _. apply veqb_refl. }
   assert (B: cols_close veqb N = true <-> cols_equal_first N).
   { unfold cols_close, cols_equal_first. rewrite forallb_forall. split; intros H.
     - intros r x Hr Hx. specialize (H r Hr). destruct r as [|x0 r]; [destruct Hx|].
@@ -991,3 +994,28 @@ Proof.
   pose proof np_atol_pos. pose proof np_rtol_pos. pose proof (Qabs_nonneg (D2Q x)).
   change (Qabs 0) with 0. nra.
 Qed.
+
+(** values that may be NaN: [None] is NaN.  Equality is structural (NaN
+    matches NaN position for position); [oclose] is numpy.allclose's element
+    test, false as soon as one side is NaN *)
+Close Scope Q_scope.
+
+Lemma odeqb_spec (a b : OD) : odeqb a b = true <-> a = b.
+Proof.
+  destruct a as [x|], b as [y|]; cbn; try (split; [discriminate|intros [=]]); try tauto.
+  rewrite deqb_spec. split; [intros ->; reflexivity|intros [= ->]; reflexivity].
+Qed.
+
+Lemma oclose_spec (a b : OD) :
+  oclose a b = true <-> exists x y, a = Some x /\ b = Some y /\ dclose x y = true.
+Proof.
+  destruct a as [x|], b as [y|]; cbn; split; try discriminate.
+  - intros H. exists x, y. repeat split. exact H.
+  - intros (x' & y' & [= <-] & [= <-] & H). exact H.
+  - intros (x' & y' & _ & [=] & _).
+  - intros (x' & y' & [=] & _).
+  - intros (x' & y' & [=] & _).
+Qed.
+
+Lemma oclose_refl_finite (x : D) : oclose (Some x) (Some x) = true.
+Proof. cbn. apply dclose_refl. Qed.
